@@ -240,7 +240,7 @@ func execG(t *testing.T, ch *vs.Choices, p *gProg, dir string, keepLog bool, par
 var gRunCounter int
 
 func newRunDir() (string, error) {
-	base := os.Getenv("VERIF_WORKROOT")
+	base := vs.Cfg("VERIF_WORKROOT")
 	if base == "" {
 		base = os.TempDir()
 	}
